@@ -36,12 +36,12 @@ type invEntry struct {
 func (e invEntry) key() string { return e.kind + "\t" + e.pkg + "\t" + e.recv + "\t" + e.name }
 
 var (
-	renameFn      = map[funcID]funcID{}    // current -> reference
-	renameFnInv   = map[funcID]funcID{}    // reference -> current
-	renameType    = map[[2]string]string{} // (pkg, current name) -> reference name
-	renameTypeInv = map[[2]string]string{} // (pkg, reference name) -> current name
-	renameVar     = map[[2]string]string{} // (pkg, current name) -> reference name
-	renameVarInv  = map[[2]string]string{} // (pkg, reference name) -> current name
+	renameFn      = map[funcID]funcID{}     // current -> reference
+	renameFnInv   = map[funcID]funcID{}     // reference -> current
+	renameType    = map[[2]string]string{}  // (pkg, current name) -> reference name
+	renameTypeInv = map[[2]string]string{}  // (pkg, reference name) -> current name
+	renameVar     = map[[2]string]string{}  // (pkg, current name) -> reference name
+	renameVarInv  = map[[2]string]string{}  // (pkg, reference name) -> current name
 	renameField   = map[*types.Var]string{} // current struct field -> reference name
 	renameNotes   []string
 )
